@@ -71,6 +71,17 @@ CLAIMED["C05"] = dict(
          "verif::demux; RwLock linearisation and certificate loading are environment; QUIC double select not driven",
     design="DESIGN.md 5 C05")
 
+CLAIMED["C13"] = dict(
+    text="Coq theorems over the value-level model: accepted pairs = exactly the non-empty TOML string values of the client tables (a missing/"
+         "non-string/empty field refuses the file), a Basic token authenticates iff it encodes a configured pair (proved base64 "
+         "injectivity), start is refused iff one of the four documented conditions holds, duplicate/absent hosts are refused; the "
+         "shapes of the Rust functions are regenerated facts. The lexical TOML forms are library code: they are covered by a "
+         "differential run of the real toml::from_str::<Settings> + RegistryBasedAuthenticator + client_config against Python's "
+         "tomllib (independent reader) and by a wizard-writer -> endpoint-reader -> exported-config round trip",
+    note="partial by nature: toml_edit is not modelled, the weight for escapes/quotes/whitespace rests on the correspondence run; trusted: Coq "
+         "kernel, Model/Settings.v, Lib/Base64.v, translator facts, tomllib, extraction + driver, harness engines",
+    design="DESIGN.md 5 C13")
+
 PENDING_REASON = "check under construction in this round (designed in DESIGN.md, not yet wired into ./check)"
 
 
